@@ -51,11 +51,15 @@ func node(tmpl string, n *gen.HostNodes) *specs.DeviceNode {
 		return &specs.DeviceNode{Path: "/dev/ctr-b", HostPath: n.Path("block"), Permissions: "rw"}
 	case "major-only-char":
 		return &specs.DeviceNode{Path: n.Path("char"), Major: 77, Minor: 7}
+	case "hostpath-char-mode-uid-gid":
+		// every optional (pointer) member set; the mode as a generator that copies st_mode records it (S_IFCHR|0666)
+		fm, uid, gid := os.FileMode(0o20666), uint32(7), uint32(8)
+		return &specs.DeviceNode{Path: "/dev/ctr-m", HostPath: n.Path("char"), FileMode: &fm, UID: &uid, GID: &gid, Permissions: "rwm"}
 	}
 	panic(tmpl)
 }
 
-var nodeTemplates = []string{"path-only-char", "hostpath-char", "type-only-block", "fully-specified", "hostpath-fifo", "type-p", "hostpath-block-perm", "major-only-char"}
+var nodeTemplates = []string{"path-only-char", "hostpath-char", "type-only-block", "fully-specified", "hostpath-fifo", "type-p", "hostpath-block-perm", "major-only-char", "hostpath-char-mode-uid-gid"}
 
 func usesHostPath(t string) bool { return strings.HasPrefix(t, "hostpath") }
 
@@ -357,7 +361,7 @@ func main() {
 				if !r.Thorough() && sn != "none" && sn != "path-only-char" && sn != "type-only-block" && sn != "hostpath-char" {
 					continue
 				}
-				if ver == "1.0.0" && !r.Thorough() && !(dn == "hostpath-char" || dn == "fully-specified" || dn == "type-only-block") {
+				if ver == "1.0.0" && !r.Thorough() && !(dn == "hostpath-char" || dn == "fully-specified" || dn == "type-only-block" || dn == "hostpath-char-mode-uid-gid") {
 					continue
 				}
 				for _, h := range histories {
